@@ -203,7 +203,7 @@ OUTSIDE = "nesting deeper than 2; string/float literals and values; names spelle
 OBLIGATIONS = ["fresh-read-per-candidate", "callable-entries", "paren-pair", "fired", "blocked", "short-circuit", "chained", "tight-spelling", "rejected-syntax", "rejected-unknown-name", "rejected-outside-grammar", "unless", "list"]
 ASSUMPTIONS = [
     "read order is compared after collapsing immediately repeated reads of one name: the library reads the middle operand of a chained comparison twice, which tests/test_spec_parser.py pins (xfail 'evaluate once')",
-    "valid Python outside the documented grammar (a + b, a.b, a if b else c) must fail when the machine is instantiated; the exception type is not constrained",
+    "valid Python outside the documented grammar (a + b, a.b, a if b else c) does not parse as a guard expression: rejected with InvalidDefinition when the machine is instantiated, like a syntax error",
     "the machine class is built natively per path; instantiation (expression parsing) and send() run under the tracer",
 ]
 
@@ -583,9 +583,6 @@ def run_reject(ctx):
     except Exception as e:
         if type(e).__name__ == "NotDeterministic":
             raise
-        if which == "outside-grammar":
-            ctx.cover(f"rejected-{which}")
-            return
         raise Mismatch(f"rejected-with-wrong-exception:{which}", f"{text!r}: instantiation raised {type(e).__name__} instead of InvalidDefinition")
     # instantiation went through: the definition error can now only surface when an event arrives (or never)
     late = "nothing"
